@@ -175,7 +175,7 @@ func c28PolluterCode(f ep.Fork, next *[20]byte) []byte {
 	a.PushU(0)
 	a.Loop(512, func() {
 		// stack: off, counter
-		a.Op(ep.DUP1 + 1)                    // off
+		a.Op(ep.DUP1 + 1)                        // off
 		a.PushN(c28Junk).Op(ep.SWAP1, ep.MSTORE) // mem[off] = junk
 		a.Op(ep.SWAP1).PushU(32).Op(ep.ADD, ep.SWAP1)
 	})
@@ -222,10 +222,10 @@ func c28DrawTemplate(rt *rapid.T, f ep.Fork) (*ep.World, []byte, string) {
 		a := ep.NewAsm(push0)
 		a.Push(s1)
 		a.PushU(0).PushU(0).PushU(0).PushU(0).PushU(0).PushAddr(child).Push(c28AllGas(f)).Op(ep.CALL)
-		a.Push(x).Op(ep.DUP1, ep.ADD)                    // s1 flag 2x
-		a.Op(ep.DUP1+2, ep.DUP1+2, ep.DUP1+2)              // s1 flag 2x s1 flag 2x
+		a.Push(x).Op(ep.DUP1, ep.ADD)         // s1 flag 2x
+		a.Op(ep.DUP1+2, ep.DUP1+2, ep.DUP1+2) // s1 flag 2x s1 flag 2x
 		a.PushU(0).Op(ep.MSTORE).PushU(32).Op(ep.MSTORE).PushU(64).Op(ep.MSTORE)
-		a.Op(ep.SWAP1+1)                                   // 2x flag s1
+		a.Op(ep.SWAP1 + 1) // 2x flag s1
 		a.PushU(96).Op(ep.MSTORE).PushU(128).Op(ep.MSTORE).PushU(160).Op(ep.MSTORE)
 		a.PushU(192).PushU(0).Op(ep.RETURN)
 		xv := new(uint256.Int).SetBytes(x)
@@ -417,10 +417,18 @@ func c28DrawPair(rt *rapid.T) *c28Pair {
 		cs.world, p.expect, p.hasExp, p.kind = w, exp, true, name
 		cs.gas = 2_000_000
 	default: // message sent straight to a precompile, inputs drawn from a tiny pool so that they repeat
-		n := []int{1, 2, 3, 4, 4, 2}[ep.Uniform(rt, "pc", 6)]
+		n := []int{1, 2, 3, 4, 5, 5, 5, 2}[ep.Uniform(rt, "pc", 8)]
 		prog := &ep.Program{Fork: f, Term: ep.Block{Kind: ep.TStop}}
 		cs.world = &ep.World{Fork: f, Contracts: []*ep.Contract{{Addr: ep.PrecompileAddr(n), Prog: prog}}}
-		cs.input = [][]byte{{}, {1}, bytes.Repeat([]byte{7}, 100), bytes.Repeat([]byte{9}, 1024), bytes.Repeat([]byte{3}, 8192), bytes.Repeat([]byte{3}, 8193)}[ep.Uniform(rt, "pc-input", 6)]
+		// MODEXP inputs: 3^5 mod 7, and a 1025-byte base (accepted before Osaka, rejected by
+		// EIP-7823 from Osaka on: the same address and input must not share a cached result
+		// across rule sets)
+		word := func(v uint64) []byte { return common.BigToHash(new(big.Int).SetUint64(v)).Bytes() }
+		small := append(append(append(word(1), word(1)...), word(1)...), 3, 5, 7)
+		big1025 := append(append(append(word(1025), word(1)...), word(1)...), bytes.Repeat([]byte{2}, 1025)...)
+		big1025 = append(big1025, 3, 7)
+		pool := [][]byte{{}, {1}, bytes.Repeat([]byte{7}, 100), bytes.Repeat([]byte{9}, 1024), bytes.Repeat([]byte{3}, 8192), bytes.Repeat([]byte{3}, 8193), small, big1025, big1025}
+		cs.input = pool[ep.Uniform(rt, "pc-input", len(pool))]
 		cs.gas = 200_000
 		p.kind = "precompile-direct"
 	}
@@ -472,16 +480,20 @@ func (cc *c28Case) dump() string {
 	return s
 }
 
-func c28Baseline(rt *rapid.T) *c28Case {
+func c28Baseline(rt *rapid.T, freshPools bool) *c28Case {
 	cc := &c28Case{}
 	n := 4 + ep.Uniform(rt, "npairs", 5)
 	for i := 0; i < n; i++ {
 		cc.pairs = append(cc.pairs, c28DrawPair(rt))
 	}
+	if freshPools {
+		// two collections empty every sync.Pool (primary and victim cache): the first
+		// baseline run starts from newly allocated arena and memory objects, and no arena
+		// is released during the baseline runs (memory objects of finished frames are)
+		runtime.GC()
+		runtime.GC()
+	}
 	for i, p := range cc.pairs {
-		// two collections empty every sync.Pool (primary and victim cache)
-		runtime.GC()
-		runtime.GC()
 		r := c28Exec(p, nil, nil, false, nil, nil)
 		if r.panic != "" {
 			rt.Fatalf("C28: panic in baseline run of pair %d (%s): %s\n%s", i, p.kind, r.panic, p.cs.dump())
@@ -536,7 +548,7 @@ func (cc *c28Case) nestable(i int) bool {
 
 func c28Property(rt *rapid.T, st *vs.S, conc bool) {
 	c := st.Case()
-	cc := c28Baseline(rt)
+	cc := c28Baseline(rt, !conc)
 	n := len(cc.pairs)
 	hits := map[string]bool{}
 
